@@ -71,8 +71,28 @@ def rand_progs(rng):
     return kind, [[rng.choice(OPS[kind]) for _ in range(rng.randint(1, 5))] for _ in range(n)]
 
 
+def apalache_inductive(ctx):
+    """Unbounded-length safety of the abstract protocol: Apalache discharges Init => IndInv, IndInv /\ Next => IndInv',
+    IndInv => Safety for spec/conc/apalache/RefCountInd.tla (3 threads x 2 payloads).  A failure is a broken check."""
+    d = os.path.join(SPECDIR, "apalache")
+    out = os.path.join(ctx.work, "apalache")
+    obligations = [("Init => IndInv", ["--init=Init", "--inv=IndInv", "--length=0"]),
+                   ("IndInv /\\ Next => IndInv'", ["--init=IndInv", "--inv=IndInv", "--length=1"]),
+                   ("IndInv => Safety", ["--init=IndInv", "--inv=Safety", "--length=0"])]
+    done = 0
+    for name, args in obligations:
+        rc, txt = vlib.sh(["timeout", "900", "apalache-mc", "check", "--cinit=CInit", "--out-dir=" + out] + args + ["RefCountInd.tla"], timeout=960, cwd=d)
+        if "EXITCODE: OK" in txt:
+            done += 1
+        else:
+            ctx.broken.append("Apalache obligation '%s' not discharged: %s" % (name, txt[-600:]))
+    ctx.notes["apalache_obligations"] = len(obligations)
+    ctx.notes["apalache_discharged"] = done
+
+
 def run(ctx):
     binary = build()
+    apalache_inductive(ctx)
     for n in sorted(SCENARIOS):
         kind, pk = SCENARIOS[n]
         dot = os.path.join(ctx.work, n + ".dot")
